@@ -207,6 +207,10 @@ func TestC17(t *testing.T) {
 			w.f.Fund(p.Addr, sdk.NewCoins(sdk.NewInt64Coin("ujkl", 5000)))
 			must2(w.initProvider(p, fmt.Sprintf("https://q%d.dom%d.org", i, i)))
 		}
+		if rapid.IntRange(0, 3).Draw(rt, "ownerProves") == 0 { // an owner that keeps replicas of its own (and others') files
+			w.provs = append(w.provs, w.owners[0])
+			w.logf("owner %s also acts as a prover", short(w.owners[0].Bech))
+		}
 		w.setParams(func(p *storagetypes.Params) {
 			p.AttestFormSize = rapid.Int64Range(1, 2).Draw(rt, "formSize")
 			p.AttestMinToPass = rapid.Int64Range(1, p.AttestFormSize).Draw(rt, "minToPass")
